@@ -17,6 +17,7 @@ import (
 	"sort"
 	"strconv"
 	"strings"
+	"sync"
 	"unicode"
 	"unicode/utf8"
 
@@ -469,6 +470,82 @@ func cmdLitsStr(args []string) {
 		}
 		observeString(agg, string(b))
 		nstr++
+	}
+	// long texts: documents of many lines (LF, CRLF, mixed, lone CR, tabs, trailing blanks), 80 bytes to a few KB - a literal
+	// syntax chosen by length or by the number of lines must still denote exactly the text
+	docs := []string{}
+	for i := 0; i < 60+n/200; i++ {
+		nl := []string{"\n", "\r\n", "\n", "\r\n", "\r", "\n\n", "\r\n\r\n"}
+		words := []string{"GET / HTTP/1.1", "Host: example.com", "key = value", "\tindented", "trailing  ", "", "ünïcödé", "a`b", "\"q\"", "x\\y", "{", "}", "// c", "/* c */", "100%"}
+		plain := r.Intn(3) != 0 // most documents avoid the characters that force the interpreted form
+		var b strings.Builder
+		lines := 2 + r.Intn(40)
+		style := r.Intn(4)
+		for j := 0; j < lines; j++ {
+			w := words[r.Intn(len(words))]
+			if plain {
+				w = words[r.Intn(8)]
+			}
+			b.WriteString(w)
+			if r.Intn(3) == 0 {
+				b.WriteString(" " + strings.Repeat("lorem ipsum ", r.Intn(6)))
+			}
+			switch style {
+			case 0:
+				b.WriteString("\n")
+			case 1:
+				b.WriteString("\r\n")
+			default:
+				b.WriteString(nl[r.Intn(len(nl))])
+			}
+		}
+		docs = append(docs, b.String())
+	}
+	for _, d := range docs {
+		observeString(agg, d)
+		nstr++
+	}
+	// the same literals rendered on several goroutines at once (every goroutine builds its own statements): the value
+	// of a literal must not depend on what other goroutines render meanwhile
+	{
+		par := append([]string{}, docs...)
+		for i := 0; i < 200; i++ {
+			par = append(par, strings.Repeat(string(rune('a'+i%26)), 1+r.Intn(3000))+"\"\n`"+strconv.Itoa(i))
+		}
+		bad := make([]string, 8)
+		var wg sync.WaitGroup
+		for g := 0; g < 8; g++ {
+			wg.Add(1)
+			go func(g int) {
+				defer wg.Done()
+				for round := 0; round < 3; round++ {
+					for i := g; i < len(par); i += 2 { // overlapping slices: the same text on several goroutines
+						s := par[i]
+						expr, _, st := renderExpr(jen.Lit(s))
+						un, err := strconv.Unquote(expr)
+						if st != "nil" || err != nil || un != s {
+							bad[g] = expr
+						}
+						c := rune(0x4e00 + (i*7+g)%2000)
+						rexpr, _, _ := renderExpr(jen.LitRune(c))
+						if u, _, _, err := strconv.UnquoteChar(strings.Trim(rexpr, "'"), '\''); err != nil || u != c {
+							bad[g] = rexpr
+						}
+					}
+				}
+			}(g)
+		}
+		wg.Wait()
+		for g := range bad {
+			okv := bad[g] == ""
+			ex := bad[g]
+			if len(ex) > 200 {
+				ex = ex[:200]
+			}
+			agg.add(fmt.Sprint("string parallel", okv), Rec{"ev": "str", "kind": "string", "classes": []string{"plain"}, "onetoken": true, "roundtrip": okv, "status": "nil",
+				"example": ex, "toks": 1, "style": "interpreted"})
+		}
+		nstr += 8
 	}
 	nr := 0
 	if allRunes {
